@@ -26,6 +26,9 @@ def cases(tier, seed):
     if tier == "thorough":
         cs.append({"asset": "example_plt_2d", "sel_seed": seed})
         cs.append({"kind": "repo_suite", "sel_seed": seed})
+    # a deep, narrow hierarchy: 11 levels (Level_10 sorts between Level_1 and Level_2 as a name)
+    cs.append({"gen": dict(seed=seed + 4242, ndims=2, nlevels=1, base=[2, 2], bf=2, maxsz=2, names=["f0", "f1"],
+                           payload="random", nfiles=1), "fmt": {}, "deepen": 11, "sel_seed": seed * 59 + 4242, "deep": True})
     return cs
 
 
@@ -83,10 +86,14 @@ def run_case(case, work, rec):
         flists.append([names[-1], "grid_level", names[0]])
     if "asset" in case:
         flists = [[names[0]], [names[-1], "grid_level"], [names[2], names[1]]]
+    deep = case.get("deep", False)
+    if deep:        # 11 levels, a 2048 x 4096 covering grid: one field list, the limits that matter
+        flists = [[names[0], "grid_level"]]
+        rec.count("deep_hierarchies")
     for fl in flists:
-        for limit in [None] + list(range(finest + 1)):
+        for limit in ([None, 9] if deep else [None] + list(range(finest + 1))):
             L = finest if limit is None else limit
-            for serial in (True, False):
+            for serial in ((True,) if deep and limit == 9 else (True, False)):
                 outs = []
                 key = (digest, tuple(fl), limit, serial)
                 descr = f"fields={fl} limit_level={limit} serial={serial}"
@@ -145,6 +152,8 @@ def run_case(case, work, rec):
                     rec.ok(key, m.nlevels >= 2 and L >= 1 and nonsq)
     # one Mandoline instance flattened several times: every call returns the covering grid, and what an
     # earlier call returned does not change afterwards
+    if deep:
+        return
     if "asset" not in case:
         poison.set_poison(np.nan)
         nm0 = names[-1]
